@@ -33,6 +33,8 @@ func vhFixture() []vhExpected {
 			greq.Req{Query: []greq.KV{{"tags", "t1"}, {"tags", "t2"}, {"n", "3"}, {"flag", "true"}}, Header: []greq.KV{{"x-small", "-8"}}}},
 		{"GET", "/api/colors", "ItemsController.ByColor", vhSecS0,
 			greq.Req{Query: []greq.KV{{"c", "red"}}}},
+		{"GET", "/api/ping", "ItemsController.Ping", [][]runtime.SecurityCheck{{{SchemaName: "s3", Scopes: []string{}}}},
+			greq.Req{}},
 		{"DELETE", "/other/things/{name}", "ThingsController.RemoveThing", vhSecDefault,
 			greq.Req{Path: []greq.KV{{"name", "t"}}}},
 		{"PUT", "/other/things/{name}", "ThingsController.PutThing", vhSecDefault,
